@@ -26,6 +26,8 @@ PROFILES = [
     {'PERSONALITY': 1, 'TX_HOOKS': 1, 'SECOND_CB': 1, 'URLENC_PARSER': 1},
     {'PERSONALITY': 4, 'AUTO_DESTROY': 1, 'BOMB_LIMIT': 20000, 'LZMA_LAYERS': 1},
     {'PERSONALITY': 0, 'PARSE_COOKIES': 0, 'PARSE_AUTH': 0, 'RES_DECOMP': 0},
+    {'PERSONALITY': 9, 'MULTIPART_PARSER': 1, 'EXTRACT_FILES': 8, 'AUTO_DESTROY': 1},
+    {'PERSONALITY': 1, 'MULTIPART_PARSER': 1, 'EXTRACT_FILES': 8, 'URLENC_PARSER': 1},
 ]
 
 OKREQ = b'GET /c HTTP/1.1\r\nHost: h\r\n\r\n'
@@ -79,6 +81,20 @@ def uri_case(r):
     return [(REQ, b'GET ' + path + q + b' HTTP/1.1\r\nHost: h%d.example\r\n' % r.randrange(50) + auth + ck + b'\r\n'), (RES, OKRES), (CLOSE, None)]
 
 
+def upload_case(r):
+    """multipart/form-data POSTs with file parts (extracted to disk under the profiles that enable it)"""
+    from .. import mpart
+    reqs, ress = [], []
+    for k in range(r.randint(1, 3)):
+        mp = mpart.gen_multipart(r, set(), {'max_part': 600})
+        reqs.append(b'POST /up%d HTTP/1.1\r\nHost: h\r\nContent-Type: %s\r\nContent-Length: %d\r\n\r\n' % (k, mp['ctype'].encode('latin-1'), len(mp['body'])) + mp['body'])
+        ress.append(OKRES)
+    ops = []
+    for q, p in zip(reqs, ress):
+        ops += [(REQ, q), (RES, p)]
+    return ops + [(CLOSE, None)]
+
+
 def shard(args):
     mode, bdir, wd, seed, s, ngroups, rounds, corpus = args
     r = grammar.Rng(seed * 1000033 + s * 7 + (0 if mode == 'baton' else 1))
@@ -88,7 +104,9 @@ def shard(args):
         prof = dict(PROFILES[r.randrange(len(PROFILES))])
         for _ in range(8):
             k = r.randrange(10)
-            if k < 4:
+            if prof.get('EXTRACT_FILES') and k < 7:
+                ops = upload_case(r)
+            elif k < 4:
                 ops = list(corpus[r.randrange(len(corpus))][2])
             elif k < 8:
                 ops = coded_case(r)
